@@ -1872,6 +1872,7 @@ Box<ITV>::drop_some_non_integer_points(Complexity_Class) {
   for (dimension_type k = seq.size(); k-- > 0; ) {
     seq[k].drop_some_non_integer_points();
   }
+  reset_empty_up_to_date();
 
   PPL_ASSERT(OK());
 }
@@ -1899,6 +1900,7 @@ Box<ITV>::drop_some_non_integer_points(const Variables_Set& vars,
          v_end = vars.end(); v_i != v_end; ++v_i) {
     seq[*v_i].drop_some_non_integer_points();
   }
+  reset_empty_up_to_date();
 
   PPL_ASSERT(OK());
 }
